@@ -63,7 +63,7 @@ func (pat Secret) Match(val string) bool {
 	for i := range parts {
 		parts[i] = regexp.QuoteMeta(parts[i])
 	}
-	re := regexp.MustCompile(fmt.Sprintf("^%s$", strings.Join(parts, ".*")))
+	re := regexp.MustCompile(fmt.Sprintf("(?s)^%s$", strings.Join(parts, ".*")))
 	return re.MatchString(val)
 }
 
